@@ -1,93 +1,837 @@
+// C13: disconnecting a block exactly undoes connecting it.
+//
+// Explicit-state search on the store tier (verif/storekit): a real blockchain.NewChainStore on
+// /dev/shm driven through ChainStore.SaveBlock / RollbackBlock (→ ChainStoreFFLDB.SaveBlock /
+// RollbackBlock with the real per-transaction save/rollback processors and index manager).
+//
+// Alphabet: connect(B) for B in a fixed menu of synthetic blocks (one "interesting" transaction
+// each, see menu()), and disconnect(tip). Because disconnect always removes the most recent
+// connect, every history over this alphabet is a stack walk: the states it visits are the
+// connect sequences, and its transitions are connect(B) from a connect sequence and
+// disconnect(tip) back to it. The explorer therefore enumerates every enabled connect sequence
+// up to the depth bound depth-first and executes, at every node and for every enabled B,
+// connect(B) … disconnect(B) in place, comparing the full canonical metadata dump and the
+// named queries taken before connect(B) with those after disconnect(B). When (and only when)
+// they are equal the instance is used on for the next sibling — exactly the state
+// identification a breadth-first search with dump digests would make. When they differ, a
+// violation is recorded (after confirmation on a fresh store with the minimal history), the
+// residual state is explored further with the remaining depth (re-inclusion oracle), and the
+// instance is rebuilt from scratch. At shallow nodes the in-place dump is additionally compared
+// with the dump of a fresh store that only replayed the pure connect sequence.
 package main
 
 import (
-	"bytes"
+	"encoding/hex"
 	"fmt"
 	"os"
-	"time"
+	"runtime/debug"
+	"sort"
+	"strings"
+	"sync"
+	"sync/atomic"
 
+	"github.com/elastos/Elastos.ELA/common"
 	"github.com/elastos/Elastos.ELA/core/types"
 	common2 "github.com/elastos/Elastos.ELA/core/types/common"
+	"github.com/elastos/Elastos.ELA/core/types/interfaces"
+	"github.com/elastos/Elastos.ELA/core/types/outputpayload"
+	"github.com/elastos/Elastos.ELA/core/types/payload"
 
 	"verif/evid"
+	"verif/par"
 	sk "verif/storekit"
 )
 
+// ---------------------------------------------------------------------------------------------
+// menu
+
+type op struct {
+	name      string
+	txs       []interfaces.Transaction
+	needs     []string // ops that must be on the active chain (inputs / reviewed proposal)
+	conflicts []string // ops that must not be on the active chain (validation would reject)
+}
+
+type menuT struct {
+	fund   interfaces.Transaction
+	ops    []*op
+	by     map[string]*op
+	addrs  []common.Uint168
+	sideH  []common.Uint256 // side-chain withdrawal hashes
+	depH   []common.Uint256 // deposit-return hashes
+	drafts []common.Uint256
+	txids  []common.Uint256
+}
+
+var (
+	addrA = sk.Addr(0xa1)
+	addrB = sk.Addr(0xb2)
+	addrC = sk.Addr(0xc3)
+	addrX = sk.XAddr(0xd4)
+)
+
+const nFund = 20
+
+func ins(id common.Uint256, idx ...uint16) []*common2.Input {
+	var out []*common2.Input
+	for _, i := range idx {
+		out = append(out, sk.In(id, i))
+	}
+	return out
+}
+
+func outs(o ...*common2.Output) []*common2.Output { return o }
+
+// menu builds the fixed transaction menu. Every menu transaction owns its funding outputs, so
+// the only dependencies are the explicit needs/conflicts.
+func menu(genesisCoinbase common.Uint256) *menuT {
+	m := &menuT{by: map[string]*op{}}
+	var fo []*common2.Output
+	for i := 0; i < nFund; i++ {
+		to := addrA
+		if i%4 == 3 {
+			to = addrX
+		}
+		fo = append(fo, sk.Out(to, 1000))
+	}
+	m.fund = sk.Transfer(0xf0, ins(genesisCoinbase, 0), fo)
+	f := m.fund.Hash()
+	hSide := sk.H("side-chain tx 1")
+	hSide2 := sk.H("side-chain tx 2")
+	hDep := sk.H("deposit tx 1")
+	draft := []byte("draft: build a bridge")
+	opinion := []byte("I agree")
+	sgOpinion := []byte("approved")
+	msg1 := []byte("milestone 1 reached")
+	msg2 := []byte("milestone 2 reached")
+	add := func(o *op) { m.ops = append(m.ops, o); m.by[o.name] = o }
+
+	add(&op{name: "empty"})
+	xfer := sk.Transfer(1, ins(f, 0), outs(sk.Out(addrA, 600), sk.Out(addrB, 0), sk.Out(addrC, 400)))
+	add(&op{name: "xfer", txs: []interfaces.Transaction{xfer}})
+	xfer2 := sk.Transfer(2, ins(xfer.Hash(), 0, 2), outs(sk.Out(addrB, 1000)))
+	add(&op{name: "xfer2", txs: []interfaces.Transaction{xfer2}, needs: []string{"xfer"}})
+	// spends the zero-value output of xfer together with a funded one
+	xfer0 := sk.Transfer(3, ins(xfer.Hash(), 1), outs(sk.Out(addrC, 0)))
+	add(&op{name: "xfer0", txs: []interfaces.Transaction{xfer0}, needs: []string{"xfer"}})
+	add(&op{name: "w0", txs: []interfaces.Transaction{sk.WithdrawV0(4, ins(f, 3), addrA, 1000, hSide)}, conflicts: []string{"w1", "w2"}})
+	add(&op{name: "w1", txs: []interfaces.Transaction{sk.WithdrawV1(5, ins(f, 7), sk.WithdrawOut(addrB, 1000, hSide))}, conflicts: []string{"w0", "w2"}})
+	add(&op{name: "w2", txs: []interfaces.Transaction{sk.WithdrawV2(6, ins(f, 11), sk.WithdrawOut(addrC, 600, hSide), sk.WithdrawOut(addrC, 400, hSide2))}, conflicts: []string{"w0", "w1"}})
+	add(&op{name: "retdep", txs: []interfaces.Transaction{sk.ReturnDeposit(7, ins(f, 15), addrA, 1000, hDep)}})
+	prop := sk.Proposal(8, ins(f, 1), outs(sk.Out(addrA, 1000)), draft)
+	add(&op{name: "prop", txs: []interfaces.Transaction{prop}})
+	add(&op{name: "rev1", txs: []interfaces.Transaction{sk.Review(9, ins(f, 2), outs(sk.Out(addrA, 1000)), prop.Hash(), 1, opinion)}, needs: []string{"prop"}})
+	add(&op{name: "rev2", txs: []interfaces.Transaction{sk.Review(10, ins(f, 4), outs(sk.Out(addrA, 1000)), prop.Hash(), 2, opinion)}, needs: []string{"prop"}})
+	add(&op{name: "trk1", txs: []interfaces.Transaction{sk.Tracking(11, ins(f, 5), outs(sk.Out(addrA, 1000)), prop.Hash(), msg1, sgOpinion)}, needs: []string{"prop"}})
+	add(&op{name: "trk2", txs: []interfaces.Transaction{sk.Tracking(12, ins(f, 6), outs(sk.Out(addrA, 1000)), prop.Hash(), msg2, sgOpinion)}, needs: []string{"prop"}})
+	add(&op{name: "regp", txs: []interfaces.Transaction{sk.RegisterProducer(13, ins(f, 8), outs(sk.Out(addrB, 1000)))}})
+	add(&op{name: "regcr", txs: []interfaces.Transaction{sk.RegisterCR(14, ins(f, 9), outs(sk.Out(addrB, 1000)))}})
+	add(&op{name: "vote", txs: []interfaces.Transaction{sk.Transfer(15, ins(f, 10), outs(sk.VoteOut(addrC, 900), sk.Out(addrC, 100)))}})
+
+	m.addrs = []common.Uint168{addrA, addrB, addrC, addrX, sk.MinerAddr}
+	m.sideH = []common.Uint256{hSide, hSide2}
+	m.depH = []common.Uint256{hDep}
+	m.drafts = []common.Uint256{common.Hash(draft), common.Hash(opinion), common.Hash(sgOpinion), common.Hash(msg1), common.Hash(msg2)}
+	m.txids = []common.Uint256{genesisCoinbase, f}
+	for _, o := range m.ops {
+		for _, t := range o.txs {
+			m.txids = append(m.txids, t.Hash())
+		}
+	}
+	return m
+}
+
+func (m *menuT) enabled(path []string, name string) bool {
+	on := map[string]bool{}
+	for _, p := range path {
+		on[p] = true
+	}
+	if name != "empty" && on[name] {
+		return false
+	}
+	o := m.by[name]
+	for _, n := range o.needs {
+		if !on[n] {
+			return false
+		}
+	}
+	for _, c := range o.conflicts {
+		if on[c] {
+			return false
+		}
+	}
+	return true
+}
+
+// class names the transactions of a block for signatures: "WithdrawFromSideChain.v2".
+func class(b *types.Block) string {
+	var parts []string
+	for _, t := range b.Transactions[1:] {
+		parts = append(parts, fmt.Sprintf("%s.v%d", t.TxType().Name(), t.PayloadVersion()))
+	}
+	if len(parts) == 0 {
+		return "CoinBase"
+	}
+	return strings.Join(parts, "+")
+}
+
+// ---------------------------------------------------------------------------------------------
+// observations
+
+// queries evaluates the named queries of the property over the whole menu universe plus extra
+// transaction ids (coinbases of the blocks involved).
+func queries(s *sk.Store, m *menuT, extra []common.Uint256) []string {
+	var out []string
+	ffl := s.CS.GetFFLDB()
+	ids := append(append([]common.Uint256{}, m.txids...), extra...)
+	for _, id := range ids {
+		short := hex.EncodeToString(id[:4])
+		u, err := ffl.GetUnspent(id)
+		if err != nil {
+			out = append(out, "GetUnspent "+short+"=error")
+		} else {
+			v := make([]int, 0, len(u))
+			for _, x := range u {
+				v = append(v, int(x))
+			}
+			sort.Ints(v)
+			out = append(out, fmt.Sprintf("GetUnspent %s=%v", short, v))
+		}
+		tx, h, err := s.CS.GetTransaction(id)
+		if err != nil || tx == nil {
+			out = append(out, "GetTransaction "+short+"=notfound")
+		} else {
+			out = append(out, fmt.Sprintf("GetTransaction %s=height%d,%s,hash-ok=%v", short, h, tx.TxType().Name(), tx.Hash() == id))
+		}
+	}
+	for _, a := range m.addrs {
+		a := a
+		us, err := ffl.GetUTXO(&a)
+		if err != nil {
+			out = append(out, "GetUTXO "+hex.EncodeToString(a[:2])+"=error")
+		} else {
+			out = append(out, fmt.Sprintf("GetUTXO %s=%v", hex.EncodeToString(a[:2]), sk.UTXOs(us)))
+		}
+	}
+	for _, h := range m.sideH {
+		h := h
+		out = append(out, fmt.Sprintf("IsTx3Exist %s=%v", hex.EncodeToString(h[:4]), ffl.IsTx3Exist(&h)))
+	}
+	for _, h := range m.depH {
+		h := h
+		out = append(out, fmt.Sprintf("IsSideChainReturnDepositExist %s=%v", hex.EncodeToString(h[:4]), ffl.IsSideChainReturnDepositExist(&h)))
+	}
+	for _, h := range m.drafts {
+		h := h
+		d, err := s.CS.GetProposalDraftDataByDraftHash(&h)
+		if err != nil {
+			out = append(out, "GetProposalDraftDataByDraftHash "+hex.EncodeToString(h[:4])+"=none")
+		} else {
+			out = append(out, fmt.Sprintf("GetProposalDraftDataByDraftHash %s=%q", hex.EncodeToString(h[:4]), d))
+		}
+	}
+	return out
+}
+
+type fail struct {
+	sig, what string
+}
+
+// compare classifies the differences between the observations before connect(B) and after
+// connect(B);disconnect(B).
+func compare(preD, postD sk.Canon, preQ, postQ []string, cls string) []fail {
+	var fs []fail
+	seen := map[string]bool{}
+	addf := func(sig, what string) {
+		if !seen[sig] {
+			seen[sig] = true
+			fs = append(fs, fail{sig, what})
+		}
+	}
+	// dump: group by path+key
+	type pv struct{ pre, post string }
+	m := map[string]*pv{}
+	var keys []string
+	for _, l := range sk.Diff(preD, postD) {
+		body := l[1:]
+		k, v, _ := strings.Cut(body, "=")
+		e := m[k]
+		if e == nil {
+			e = &pv{}
+			m[k] = e
+			keys = append(keys, k)
+		}
+		if l[0] == '-' {
+			e.pre = v + "\x00"
+		} else {
+			e.post = v + "\x00"
+		}
+	}
+	sort.Strings(keys)
+	for _, k := range keys {
+		e := m[k]
+		dir := "changed"
+		switch {
+		case e.pre == "":
+			dir = "residue"
+		case e.post == "":
+			dir = "lost"
+		}
+		b := sk.Bucket(k)
+		addf(fmt.Sprintf("C13|index-diff|%s|bucket=%s|undone=%s", dir, b, cls),
+			fmt.Sprintf("metadata row %q: before connect %q, after connect+disconnect %q", k, strings.TrimSuffix(e.pre, "\x00"), strings.TrimSuffix(e.post, "\x00")))
+	}
+	// queries (same universe, same order)
+	for i := range preQ {
+		if i < len(postQ) && preQ[i] != postQ[i] {
+			name, _, _ := strings.Cut(preQ[i], " ")
+			addf(fmt.Sprintf("C13|query-diff|%s|%s|undone=%s", name, direction(preQ[i], postQ[i]), cls),
+				fmt.Sprintf("before connect: %s; after connect+disconnect: %s", preQ[i], postQ[i]))
+		}
+	}
+	return fs
+}
+
+// direction classifies a changed query answer: residue (an absent answer became present), lost
+// (a present answer became absent) or changed.
+func direction(pre, post string) string {
+	absent := func(l string) bool {
+		_, v, _ := strings.Cut(l, "=")
+		return v == "none" || v == "false" || v == "notfound" || v == "[]" || v == "error"
+	}
+	switch {
+	case absent(pre) && !absent(post):
+		return "residue"
+	case !absent(pre) && absent(post):
+		return "lost"
+	}
+	return "changed"
+}
+
+// ---------------------------------------------------------------------------------------------
+// explorer
+
+type explorer struct {
+	r        *evid.Run
+	base     string
+	m        *menuT
+	ops      []string
+	maxDepth int
+
+	seq         int64
+	nodes       int64 // connect sequences reached (each a distinct history executed)
+	transitions int64
+	pairs       int64
+	instances   int64
+	selfChecks  int64
+	residual    int64
+	mu          sync.Mutex
+	confirmed   map[string]bool
+	found       map[string]*found
+	states      map[string]bool
+	perDepth    []int64
+	undone      evid.Distinct
+	samples     evid.Samples
+	expired     int32
+}
+
+func (e *explorer) fresh() *sk.Store {
+	n := atomic.AddInt64(&e.seq, 1)
+	s, err := sk.Create(sk.Fresh(e.base, "s", int(n)), nil)
+	if err != nil {
+		evid.Fatalf("create store: %v", err)
+	}
+	atomic.AddInt64(&e.instances, 1)
+	if err := s.Connect(s.NewBlock(e.m.fund), nil); err != nil {
+		evid.Fatalf("connect funding block: %v", err)
+	}
+	return s
+}
+
+// history entries: "name" = connect(block name), "~" = disconnect(tip).
+func (e *explorer) run(s *sk.Store, hist []string) error {
+	for _, h := range hist {
+		if h == "~" {
+			if _, err := s.DisconnectTip(nil); err != nil {
+				return fmt.Errorf("disconnect: %v", err)
+			}
+			continue
+		}
+		if err := s.Connect(s.NewBlock(e.m.by[h].txs...), nil); err != nil {
+			return fmt.Errorf("connect %s: %v", h, err)
+		}
+	}
+	return nil
+}
+
+func (e *explorer) build(hist []string) *sk.Store {
+	s := e.fresh()
+	if err := e.run(s, hist); err != nil {
+		evid.Fatalf("replay of %v failed: %v", hist, err)
+	}
+	return s
+}
+
+func (e *explorer) note(depth int, d sk.Canon) {
+	k := strings.Join(d, "\n")
+	e.mu.Lock()
+	if !e.states[k] {
+		e.states[k] = true
+		for len(e.perDepth) <= depth {
+			e.perDepth = append(e.perDepth, 0)
+		}
+		e.perDepth[depth]++
+	}
+	e.mu.Unlock()
+}
+
+func dump(s *sk.Store) sk.Canon {
+	rows, err := s.Dump()
+	if err != nil {
+		evid.Fatalf("dump: %v", err)
+	}
+	return sk.Canonical(rows, sk.CanonRules{})
+}
+
+func coinbases(s *sk.Store, more ...*types.Block) []common.Uint256 {
+	var ids []common.Uint256
+	for _, b := range s.Blocks[1:] {
+		ids = append(ids, b.Transactions[0].Hash())
+	}
+	for _, b := range more {
+		ids = append(ids, b.Transactions[0].Hash())
+	}
+	return ids
+}
+
+// ctx is the store of one task; a rebuild after a violation replaces the store for every pending
+// level (the rebuilt store is in the same state: it replayed the same history).
+type ctx struct{ s *sk.Store }
+
+// nodeChecks runs the oracles that need no transition: a withdrawal whose side-chain hash is
+// not on the active chain (menu rule) must pass the node's duplicate check, i.e. it can be
+// included (again).
+func (e *explorer) nodeChecks(c *ctx, hist []string) []fail {
+	var fs []fail
+	path := active(hist)
+	seen := map[string]bool{}
+	for _, name := range e.ops {
+		if !e.m.enabled(path, name) {
+			continue
+		}
+		for _, t := range e.m.by[name].txs {
+			if t.TxType() != common2.WithdrawFromSideChain {
+				continue
+			}
+			for _, h := range withdrawHashes(t) {
+				if c.s.CS.IsSidechainTxHashDuplicate(h) {
+					sig := "C13|reinclude-blocked|IsSidechainTxHashDuplicate|after-undo-of=" + lastUndone(hist, e.m)
+					if !seen[sig] {
+						seen[sig] = true
+						fs = append(fs, fail{sig, fmt.Sprintf("side-chain hash %s is not on the active chain, yet IsSidechainTxHashDuplicate reports it, so %s would be rejected as a duplicate", hex.EncodeToString(h[:4]), name)})
+					}
+				}
+			}
+		}
+	}
+	return fs
+}
+
+// pair executes connect(B);disconnect(B) on the store (which is in the state of hist), calling
+// down between the two. It returns the failures and whether the store is back in the state of
+// hist.
+func (e *explorer) pair(c *ctx, hist []string, name string, preD sk.Canon, down func(b *types.Block)) ([]fail, bool) {
+	o := e.m.by[name]
+	b := c.s.NewBlock(o.txs...)
+	cls := class(b)
+	var fs []fail
+	ex := coinbases(c.s, b)
+	preQ := queries(c.s, e.m, ex)
+	if err := c.s.Connect(b, nil); err != nil {
+		evid.Fatalf("connect %s after %v failed: %v (menu blocks are valid; harness error)", name, hist, err)
+	}
+	atomic.AddInt64(&e.transitions, 1)
+	if down != nil {
+		down(b)
+	}
+	if _, err := c.s.DisconnectTip(nil); err != nil {
+		fs = append(fs, fail{"C13|disconnect-error|undone=" + cls, fmt.Sprintf("RollbackBlock of the tip failed: %v", err)})
+		return fs, false
+	}
+	atomic.AddInt64(&e.transitions, 1)
+	atomic.AddInt64(&e.pairs, 1)
+	e.undone.Add(cls)
+	postD := dump(c.s)
+	postQ := queries(c.s, e.m, ex)
+	d := compare(preD, postD, preQ, postQ, cls)
+	fs = append(fs, d...)
+	return fs, len(d) == 0
+}
+
+func withdrawHashes(t interfaces.Transaction) []common.Uint256 {
+	if t.PayloadVersion() == payload.WithdrawFromSideChainVersion {
+		return t.Payload().(*payload.WithdrawFromSideChain).SideChainTransactionHashes
+	}
+	var hs []common.Uint256
+	for _, o := range t.Outputs() {
+		if w, ok := o.Payload.(*outputpayload.Withdraw); ok && o.Type == common2.OTWithdrawFromSideChain {
+			hs = append(hs, w.SideChainTransactionHash)
+		}
+	}
+	return hs
+}
+
+// lastUndone names the class of the most recent connect that was disconnected in hist.
+func lastUndone(hist []string, m *menuT) string {
+	var stack []string
+	last := "none"
+	for _, h := range hist {
+		if h == "~" {
+			if len(stack) > 0 {
+				last = stack[len(stack)-1]
+				stack = stack[:len(stack)-1]
+			}
+			continue
+		}
+		stack = append(stack, h)
+	}
+	if o, ok := m.by[last]; ok && len(o.txs) > 0 {
+		t := o.txs[len(o.txs)-1]
+		return fmt.Sprintf("%s.v%d", t.TxType().Name(), t.PayloadVersion())
+	}
+	return last
+}
+
+// active returns the connect sequence that hist reduces to.
+func active(hist []string) []string {
+	var stack []string
+	for _, h := range hist {
+		if h == "~" {
+			stack = stack[:len(stack)-1]
+		} else {
+			stack = append(stack, h)
+		}
+	}
+	return stack
+}
+
+// report records failures of the pair hist+[name,"~"]. The first time a signature is seen the
+// history is re-executed on a fresh store and must fail identically; a divergence is an engine
+// error, never a verdict.
+func (e *explorer) report(hist []string, name string, fs []fail) {
+	full := append([]string{}, hist...)
+	if name != "" {
+		full = append(full, name, "~")
+	}
+	need := false
+	e.mu.Lock()
+	for _, f := range fs {
+		if !e.confirmed[f.sig] {
+			need = true
+		}
+	}
+	e.mu.Unlock()
+	if need {
+		s := e.build(hist)
+		c := &ctx{s}
+		var got []fail
+		if name == "" {
+			got = e.nodeChecks(c, hist)
+		} else {
+			got, _ = e.pair(c, hist, name, dump(c.s), nil)
+		}
+		c.s.Destroy()
+		if a, b := sigs(fs), sigs(got); a != b {
+			evid.Fatalf("failure of %v does not reproduce on a fresh store: first %s then %s", full, a, b)
+		}
+		e.mu.Lock()
+		for _, f := range fs {
+			e.confirmed[f.sig] = true
+		}
+		e.mu.Unlock()
+	}
+	e.mu.Lock()
+	for _, f := range fs {
+		cur := e.found[f.sig]
+		if cur == nil {
+			cur = &found{}
+			e.found[f.sig] = cur
+		}
+		cur.count++
+		if cur.hist == nil || less(full, cur.hist) {
+			cur.hist, cur.what = full, f.what
+		}
+	}
+	e.mu.Unlock()
+}
+
+type found struct {
+	hist  []string
+	what  string
+	count int
+}
+
+// less orders histories by length, then lexicographically (the reported example is the least).
+func less(a, b []string) bool {
+	if len(a) != len(b) {
+		return len(a) < len(b)
+	}
+	return strings.Join(a, ",") < strings.Join(b, ",")
+}
+
+// flush hands the collected violations to the run in signature order.
+func (e *explorer) flush() {
+	var ks []string
+	for k := range e.found {
+		ks = append(ks, k)
+	}
+	sort.Strings(ks)
+	for _, k := range ks {
+		f := e.found[k]
+		e.r.MergeViolation(evid.Violation{Signature: k, What: f.what, Count: f.count,
+			Artefact: map[string]interface{}{"system": "c13-store", "history": f.hist}})
+	}
+}
+
+func sigs(fs []fail) string {
+	var s []string
+	for _, f := range fs {
+		s = append(s, f.sig)
+	}
+	sort.Strings(s)
+	return strings.Join(s, " ; ")
+}
+
+// expand explores all children of the node reached by hist. The store is in that state on
+// entry and on return. budget = connects still allowed below. stopAt > 0 limits the descent to
+// connect sequences of that length (root task of a sharded run).
+func (e *explorer) expand(c *ctx, hist []string, preD sk.Canon, budget int, stopAt int) {
+	if fs := e.nodeChecks(c, hist); len(fs) > 0 {
+		e.report(hist, "", fs)
+	}
+	if budget <= 0 {
+		return
+	}
+	if atomic.LoadInt32(&e.expired) != 0 || e.r.Expired() {
+		atomic.StoreInt32(&e.expired, 1)
+		return
+	}
+	path := active(hist)
+	if preD == nil {
+		preD = dump(c.s)
+	}
+	for _, name := range e.ops {
+		if !e.m.enabled(path, name) {
+			continue
+		}
+		child := append(append([]string{}, hist...), name)
+		fs, back := e.pair(c, hist, name, preD, func(b *types.Block) {
+			atomic.AddInt64(&e.nodes, 1)
+			cd := dump(c.s)
+			e.note(len(path)+1, cd)
+			if len(path)+1 <= 2 && !hasUndo(hist) {
+				// state-identification self-check: the in-place state equals a fresh replay
+				fs := e.build(child)
+				fd := dump(fs)
+				fs.Destroy()
+				atomic.AddInt64(&e.selfChecks, 1)
+				if df := sk.Diff(fd, cd); len(df) > 0 {
+					evid.Fatalf("in-place state after %v differs from a fresh replay: %v", child, df)
+				}
+			}
+			if len(child) == e.maxDepth && !hasUndo(child) {
+				e.samples.Add(child)
+			}
+			if stopAt == 0 || len(path)+1 < stopAt {
+				e.expand(c, child, cd, budget-1, stopAt)
+			}
+		})
+		if len(fs) > 0 {
+			e.report(hist, name, fs)
+		}
+		if !back {
+			// residual state: explore it in place with the remaining depth, then rebuild the
+			// state of this node by a clean replay
+			atomic.AddInt64(&e.residual, 1)
+			res := append(append([]string{}, child...), "~")
+			// (descendants of a residual state are consequences of the violation just
+			// recorded; only the transition-free oracles are evaluated there)
+			e.note(len(path), dump(c.s))
+			if fs := e.nodeChecks(c, res); len(fs) > 0 {
+				e.report(res, "", fs)
+			}
+			c.s.Destroy()
+			c.s = e.build(hist)
+			preD = dump(c.s)
+		}
+	}
+}
+
+func hasUndo(hist []string) bool {
+	for _, h := range hist {
+		if h == "~" {
+			return true
+		}
+	}
+	return false
+}
+
+// task = explore the subtree below a connect-sequence prefix on its own store.
+func (e *explorer) task(prefix []string, stopAt int) {
+	defer func() {
+		if p := recover(); p != nil {
+			st := debug.Stack()
+			evid.Fatalf("panic in task %v: %v\n%s", prefix, p, st)
+		}
+	}()
+	c := &ctx{e.build(prefix)}
+	e.expand(c, prefix, nil, e.maxDepth-len(prefix), stopAt)
+	c.s.Destroy()
+}
+
+func (e *explorer) prefixes(n int) [][]string {
+	out := [][]string{{}}
+	for d := 0; d < n; d++ {
+		var next [][]string
+		for _, p := range out {
+			for _, name := range e.ops {
+				if e.m.enabled(p, name) {
+					next = append(next, append(append([]string{}, p...), name))
+				}
+			}
+		}
+		out = next
+	}
+	return out
+}
+
+func (e *explorer) explore() {
+	split := 2
+	if e.maxDepth <= 2 {
+		split = 0
+	}
+	if split == 0 {
+		e.task(nil, 0)
+		return
+	}
+	// root task: all nodes of length < split are expanded; nodes of length == split are reached
+	// and undone but expanded by their own task
+	tasks := e.prefixes(split)
+	par.Go(len(tasks)+1, func(i int) {
+		if i == 0 {
+			e.task(nil, split)
+			return
+		}
+		e.task(tasks[i-1], 0)
+	})
+}
+
 func main() {
-	base := evid.Scratch("c13probe")
+	r := evid.Start("C13", "model_checking")
+	base := evid.Scratch("c13")
 	defer os.RemoveAll(base)
 	sk.Setup(base + "/logs")
-	t0 := time.Now()
-	s, err := sk.Create(base+"/s0", nil)
-	if err != nil {
-		panic(err)
-	}
-	fmt.Println("create", time.Since(t0))
-	g := s.Blocks[0]
-	for i, t := range g.Transactions {
-		fmt.Println("genesis tx", i, t.TxType().Name(), t.Hash(), len(t.Outputs()))
-	}
-	d0, _ := s.Dump()
-	for _, r := range d0 {
-		fmt.Println(r)
-	}
-	// roundtrip of a synthetic block
-	f := sk.Transfer(1, []*common2.Input{sk.In(g.Transactions[0].Hash(), 0)}, []*common2.Output{sk.Out(sk.Addr(1), 5), sk.Out(sk.Addr(2), 0)})
-	b := s.NewBlock(f)
-	buf := new(bytes.Buffer)
-	if err := b.Serialize(buf); err != nil {
-		panic(err)
-	}
-	var b2 types.Block
-	if err := b2.Deserialize(bytes.NewReader(buf.Bytes())); err != nil {
-		panic(err)
-	}
-	fmt.Println("roundtrip hash equal:", b2.Hash() == b.Hash(), len(b2.Transactions))
-	t1 := time.Now()
-	if err := s.Connect(b, nil); err != nil {
-		panic(err)
-	}
-	fmt.Println("connect", time.Since(t1))
-	d1, _ := s.Dump()
-	for _, l := range sk.Diff(sk.Canonical(d0, sk.CanonRules{}), sk.Canonical(d1, sk.CanonRules{})) {
-		fmt.Println(l)
-	}
-	t1 = time.Now()
-	if _, err := s.DisconnectTip(nil); err != nil {
-		panic(err)
-	}
-	fmt.Println("disconnect", time.Since(t1))
-	d2, _ := s.Dump()
-	fmt.Println("diff after disconnect:")
-	for _, l := range sk.Diff(sk.Canonical(d0, sk.CanonRules{}), sk.Canonical(d2, sk.CanonRules{})) {
-		fmt.Println(l)
-	}
-	t1 = time.Now()
-	if err := s.Reopen(); err != nil {
-		panic(err)
-	}
-	fmt.Println("reopen", time.Since(t1))
-	t1 = time.Now()
-	s.Destroy()
-	fmt.Println("destroy", time.Since(t1))
-	for i := 0; i < 10; i++ {
-		t1 = time.Now()
-		s, err := sk.Create(fmt.Sprintf("%s/x%d", base, i), nil)
-		if err != nil {
-			panic(err)
+	g := sk.Params().GenesisBlock
+	m := menu(g.Transactions[0].Hash())
+
+	if r.Replay != "" {
+		var a struct {
+			History []string `json:"history"`
 		}
-		c := time.Since(t1)
-		t1 = time.Now()
-		s.Close()
-		cl := time.Since(t1)
-		t1 = time.Now()
-		s.Reopen()
-		ro := time.Since(t1)
-		t1 = time.Now()
-		s.Close()
-		cl2 := time.Since(t1)
-		t1 = time.Now()
-		os.RemoveAll(s.Dir)
-		fmt.Println("create", c, "close", cl, "reopen", ro, "close", cl2, "rm", time.Since(t1))
+		want := r.LoadReplay(&a)
+		e := &explorer{r: r, base: base, m: m, states: map[string]bool{}, confirmed: map[string]bool{}, found: map[string]*found{}}
+		h := a.History
+		if len(h) < 2 || h[len(h)-1] != "~" {
+			evid.Fatalf("replay history must end with connect,disconnect: %v", h)
+		}
+		hist, name := h[:len(h)-2], h[len(h)-2]
+		c := &ctx{e.build(hist)}
+		fs, _ := e.pair(c, hist, name, dump(c.s), nil)
+		fs = append(fs, e.nodeChecks(c, h)...)
+		c.s.Destroy()
+		fmt.Printf("replay %v (expected %s):\n", h, want)
+		for _, f := range fs {
+			fmt.Printf("  FAIL %s — %s\n", f.sig, f.what)
+			r.Violate(f.sig, f.what, map[string]interface{}{"system": "c13-store", "history": h})
+		}
+		if len(fs) == 0 {
+			fmt.Println("  ok: dump and queries identical")
+		}
+		os.RemoveAll(base)
+		r.Finish(evid.Coverage{})
 	}
+
+	type phase struct {
+		name  string
+		ops   []string
+		depth int
+	}
+	var all []string
+	for _, o := range m.ops {
+		all = append(all, o.name)
+	}
+	phases := []phase{{"full", all, r.Pick(4, 5)}}
+	if r.Thorough() {
+		phases = append(phases,
+			phase{"withdraw-group", []string{"empty", "xfer", "xfer2", "w0", "w1", "w2", "retdep"}, 6},
+			phase{"proposal-group", []string{"empty", "xfer", "prop", "rev1", "rev2", "trk1", "trk2"}, 6},
+		)
+	}
+	tot := &explorer{states: map[string]bool{}, confirmed: map[string]bool{}, found: map[string]*found{}}
+	exhaustive := true
+	var phaseInfo []map[string]interface{}
+	samples := []interface{}{}
+	undone := map[string]int{}
+	for _, ph := range phases {
+		e := &explorer{r: r, base: base, m: m, ops: ph.ops, maxDepth: ph.depth, states: map[string]bool{}, confirmed: map[string]bool{}, found: map[string]*found{}}
+		e.samples.N = 5
+		e.explore()
+		e.flush()
+		if e.expired != 0 {
+			exhaustive = false
+		}
+		tot.nodes += e.nodes
+		tot.transitions += e.transitions
+		tot.pairs += e.pairs
+		tot.instances += e.instances
+		tot.selfChecks += e.selfChecks
+		tot.residual += e.residual
+		for k := range e.states {
+			tot.states[k] = true
+		}
+		for k, v := range e.undone.Map() {
+			undone[k] += v
+		}
+		samples = append(samples, e.samples.Out...)
+		phaseInfo = append(phaseInfo, map[string]interface{}{"phase": ph.name, "alphabet": ph.ops, "depth": ph.depth,
+			"connect_sequences": e.nodes, "pairs": e.pairs, "states_per_depth": e.perDepth, "completed": e.expired == 0})
+	}
+	if len(samples) == 0 {
+		samples = append(samples, []string{})
+	}
+	cov := evid.Coverage{
+		"states":                        len(tot.states) + 1,
+		"transitions":                   tot.transitions,
+		"traces_validated_against_impl": tot.nodes,
+		"connect_disconnect_pairs":      tot.pairs,
+		"fresh_store_instances":         tot.instances,
+		"state_identification_checks":   tot.selfChecks,
+		"residual_states_explored":      tot.residual,
+		"undone_block_classes":          undone,
+		"phases":                        phaseInfo,
+		"exhaustive":                    exhaustive,
+		"samples":                       samples,
+		"canonical_dump_rules":          sk.Rules(),
+		"rule": "depth-first enumeration of every enabled connect sequence over the block menu up to the depth bound on a real chain store " +
+			"(ChainStore.SaveBlock/RollbackBlock); at every node, for every enabled block B: named queries + full canonical metadata dump before connect(B) " +
+			"== after connect(B);disconnect(B); withdrawals enabled by the menu rule must pass IsSidechainTxHashDuplicate; residual states after a violating pair are expanded once more; " +
+			"states = distinct canonical dumps; traces = connect sequences executed on the implementation",
+	}
+	r.Assume = append(r.Assume,
+		"blocks are synthetic (no signatures, no proof of work, zero AuxPow); the store seam does not validate them",
+		"menu rules keep blocks consensus-plausible: no output spent twice, no transaction twice on the active chain, reviews/trackings only after their proposal, a side-chain hash at most once on the active chain",
+		"states with equal canonical dump are identified (the instance is reused after a verified connect/disconnect identity); the identification is cross-checked against fresh replays at depth <= 2",
+	)
+	os.RemoveAll(base)
+	r.Finish(cov)
 }
